@@ -37,6 +37,20 @@ for pid in sorted(props):
             fs=', '.join(files_of(f'{V}/benign/{n}/patch.diff'))
             earlier.append(f"- {m.get('what','')} [files: {fs}]")
         t+='\n\nEARLIER behaviour-preserving changes already made for this property (do something of a DIFFERENT kind, and if possible in different functions among the anchors — the property\'s mechanisms list several places; also the functions those call):\n'+'\n'.join(earlier)
+        focus={
+ 'C01':'RecordImages.IsEmptyImage / RoundRecordImage.IsEmpty in pkg/datasource/sql/types/image.go and the early returns of BaseUndoLogManager.FlushUndoLog (pkg/datasource/sql/undo/base/undo.go)',
+ 'C02':'ATTx.commitOnAT / rollbackOnCommitFailure in pkg/datasource/sql/tx_at.go and Tx.Commit / Tx.Rollback / commitOnLocal in pkg/datasource/sql/tx.go',
+ 'C05':'TCCResourceManager.getBusinessActionContext and its two callers in pkg/rm/tcc/tcc_resource.go',
+ 'C08':'ColumnImage.MarshalJSON / UnmarshalJSON (time and text handling) in pkg/datasource/sql/types/image.go',
+ 'C14':'GettyRemotingClient.syncCallback / asyncCallback (pkg/remoting/getty/getty_client.go) and NotifyRpcMessageResponse / RemoveMessageFuture (getty_remoting.go)',
+ 'C16':'ATTx.commitOnAT and Tx.Commit / commitOnLocal (pkg/datasource/sql/tx_at.go, tx.go)',
+ 'C17':'XABranchXid (String, options, XaIdBuild) in pkg/datasource/sql/xa_branch_xid.go / xa_xid_builder.go',
+ 'C18':'insertExecutor.parsePkValuesFromStatement / getPkValuesByColumn / getInsertRows in pkg/datasource/sql/exec/at/insert_executor.go and insertOnUpdateExecutor.buildBeforeImageSQLParameters',
+ 'C19':'Consistent.pick / refreshHashCircle (consistent_hash_loadbalance.go) and SessionManager.selectSession (pkg/remoting/getty/session_manager.go)',
+ 'C20':'BaseTableMetaCache.refresh / scanExpire / GetTableMeta in pkg/datasource/sql/datasource/base/meta_cache.go',
+        }
+        if pid in focus:
+            t+='\n\nFOR THIS ROUND please work on (one or more of) these functions, which earlier rounds left alone: '+focus[pid]+'. Typical candidates: turn a loop into a helper predicate or the reverse, split a function, merge two early returns, move a clean-up into a defer (or out of one), replace string concatenation by a builder or fmt, hoist a lock/unlock pair into a helper method, turn a closure into a method — exactly behaviour-preserving.'
         t+='\n\nPick whatever a maintainer would most plausibly do to this code next (the list in the task above names typical kinds); it does not have to be exotic, but it must not repeat one of the changes listed above, and it should touch the core of the mechanism, not its fringe. Behaviour must be exactly preserved on every path, including every error path, every lock/unlock and every goroutine.'
     open(f'/tmp/props/prompt_{kind}_{tag}_{pid}.txt','w').write(t)
 print('ok')
